@@ -227,6 +227,60 @@ def run(prog, ctx):
     res.functions_analysed = sum(v["write_sites"] for v in res.extra["families"].values())
     res.entry_points = ["%s::%s" % specfmt.FAMILIES[f]["writer"] for f in sorted(specfmt.FAMILIES)]
     # a theta image is written from the compact form: what compact() hands over (theta, emptiness) is what the image carries
+    # ---------------- C12.V  Count-Min counters are written as 8-byte little-endian two's-complement values: a signed counter type
+    # narrower than 64 bits has to be sign-extended on the way out.  Decided by where the counter goes inside `to_bytes`: into a cast
+    # to a 64-bit integer (extension), or only into the narrow type's own `to_*_bytes` (at most N of the 8 bytes can then depend on
+    # it: the upper bytes of a negative counter are not 0xff and the image is rejected / misread by every reader).
+    n_v = 0
+    for g in sorted(prog.fns.values(), key=lambda x: x.id):
+        if g.promoted or g.item_name != "to_bytes" or "CountMinValue>::" not in g.id or g.argc != 1:
+            continue
+        ty = g.local_ty(1)
+        if ty not in ("i8", "i16", "i32"):
+            continue
+        n_v += 1
+        alias = {1}
+        wide = narrow = other = 0
+        changed = True
+        while changed:
+            changed = False
+            for b in g.blocks:
+                for st in b.stmts:
+                    if st[0] == "=" and isinstance(st[1], int) and st[2][0] == "use" and st[2][1][0] in ("c", "m") and isinstance(st[2][1][1], int) and st[2][1][1] in alias and st[1] not in alias:
+                        alias.add(st[1])
+                        changed = True
+
+        def uses(o):
+            return isinstance(o, (list, tuple)) and len(o) == 2 and o[0] in ("c", "m") and ir.pl_local(o[1]) in alias
+        for b in g.blocks:
+            if b.cleanup:
+                continue
+            for st in b.stmts:
+                if st[0] != "=":
+                    continue
+                rv = st[2]
+                if rv[0] == "use":
+                    continue
+                if rv[0] == "cast" and uses(rv[2]):
+                    if rv[1] == "IntToInt" and rv[4] in ("i64", "u64", "i128", "u128", "isize", "usize"):
+                        wide += 1
+                    else:
+                        other += 1
+                elif any(uses(o) for o in rv[1:] if isinstance(o, (list, tuple))) or (rv[0] == "ref" and ir.pl_local(rv[2]) in alias):
+                    other += 1
+            if b.term[0] == "call":
+                site = b.term[1]
+                if any(uses(a) for a in site["args"]):
+                    cal = site.get("callee") or ""
+                    if cal.rsplit("::", 1)[-1] in ("to_le_bytes", "to_be_bytes", "to_ne_bytes") and ("<impl %s>" % ty) in cal:
+                        narrow += 1
+                    else:
+                        other += 1
+        ok = True if wide else (False if narrow and not other else None)
+        res.tri(ok, "C12.V", "C12.V|%s" % ty, "%s counters leave to_bytes() only through %s::to_*_bytes (%d bytes): the 8-byte field is not the sign-extended "
+                "value the layout requires, a negative counter is written zero-extended" % (ty, ty, int(ty[1:]) // 8), g.id,
+                sample={"rule": "C12.V", "type": ty, "widening_casts": wide})
+    res.rule("C12.V", n_v, 3, "signed Count-Min counter types narrower than 64 bits")
     C.import_rules(res, prog, ctx, "C12.P", "C04", ("C04.P",), "compact form handed to the theta writer", 1)
     res.explanation = ("writer I/O models (write sites with token kind, value provenance and guards, callees inlined) of the seven families, evaluated "
                        "under every abstract sketch state of specfmt.py and compared token by token with the published layouts")
